@@ -21,6 +21,23 @@ CLAIMED = {
         note="Trusts the installed interpreters as the oracle, Kani/CBMC/CaDiCaL, and the table-per-version choice made in codegen.rs "
              "(308 for 3.7/3.8, 309, 310, 311). Names present only in erg's tables are listed, not failed.",
         design="3/C16"),
+    "C04": dict(
+        engine="mir2smt",
+        technique="symbolic execution of the rustc MIR of ValueObj::try_* / Neg / eval_bin / eval_unary_val into SMT (bit-vectors + IEEE-754), "
+                  "z3 decides panic freedom and agreement with Python per (operator, operand-variant pair); counterexamples are replayed "
+                  "against the real build (cargo test) with CPython's own arithmetic as the oracle; the encoding is validated on concrete vectors",
+        category="other",
+        text="For every i32 / u64 / f64 bit pattern / bool payload of both operands, per operator and per pair of operand variants "
+             "(Int, Nat, Float, Bool), z3 shows that the compiled constant-folding kernel reaches no panic and that every value it "
+             "returns equals Python's result (exact integer semantics incl. floor division and modulo, bit-exact binary64, exact "
+             "int/float comparison), and that eval_bin / try_binary dispatch to the operator they name; where the full-domain "
+             "obligation is a listed known finding, restricted-domain obligations (Nat < 2^31, non-negative operands) are decided "
+             "separately so the arm stays guarded. The link from a folded value to the type checker's use of it is not decided.",
+        note="Trusts rustc's MIR dump (dev profile, overflow checks on) as the semantics of the source, engines/mir2smt.py (validated on "
+             "each run against the native build on seeded concrete vectors), z3, and the Python reference written in props/c04.py. "
+             "float // % ** have no exact reference (panic freedom only); int/int true division reference is bounded to |operands| <= 2^53; "
+             "try_pow exponents 0..3 (quick) / 0..7 (thorough); Str/List/Dict/Type operands are outside.",
+        design="3/C04"),
 }
 
 NOT_APPLICABLE = {}
@@ -72,8 +89,8 @@ def main():
              "kind_free_text": KANI},
             {"name": "mir2smt", "path": "engines/mir2smt.py", "serves_properties": sorted(p for p, c in CLAIMED.items() if "mir2smt" in c["engine"]),
              "kind_free_text": MIR},
-            {"name": "py2smt", "path": "engines/py2smt.py", "serves_properties": sorted(p for p, c in CLAIMED.items() if "py2smt" in c["engine"]),
-             "kind_free_text": PY},
+            {"name": "native", "path": "engines/native.py", "serves_properties": sorted(p for p, c in CLAIMED.items() if "mir2smt" in c["engine"]),
+             "kind_free_text": "replay of solver counterexamples and translation-validation vectors against the real crate (cargo test on the scratch copy)"},
         ],
         "checks": checks,
         "not_applicable": nalist,
